@@ -198,7 +198,46 @@ def extract(run, scratch):
                                   f"list: the earlier function is silently dropped", {"kind": "export", "set": s, "key": k})
                 owner[k] = (n, f.name())
         if set(owner) != set(eqs):
-            raise MachineryError(f"{s}: export list read from the source {sorted(owner)} differs from the executed one {sorted(eqs)}")
+            # the export list is not written as literal derive_*() calls (a loop over a list, say): the static reading is
+            # only an aid; fall back to every derive_* function the module defines
+            run.spec_drift(f"{s}/export_list/not_statically_readable", "the __main__ export list is not a sequence of literal derive_*() calls; "
+                           "the executed list is used")
+            called = list(defined)
+        # what the entry point ships must be what the LIBRARY derives: the __main__ block runs in a namespace of its own, and
+        # anything it rebinds there (a module constant used by the derivations, say) changes the shipped functions only
+        lib = {}
+        for n in defined:
+            try:
+                with quiet():
+                    for k, f in getattr(mod, n)().items():
+                        if isinstance(f, ca.Function):
+                            lib[f.name()] = f
+            except Exception:       # noqa
+                pass
+        rngm = np.random.default_rng(20260101)
+        for k, f in eqs.items():
+            if not isinstance(f, ca.Function) or f.name() not in lib:
+                continue
+            g_ = lib[f.name()]
+            if g_.n_in() != f.n_in() or any(g_.size_in(i) != f.size_in(i) for i in range(f.n_in())):
+                continue
+            for _ in range(3):
+                args = [ca.DM(rngm.uniform(-1.5, 1.5, f.numel_in(i)).reshape(f.size_in(i), order="F")) for i in range(f.n_in())]
+                try:
+                    a_ = f(*args); b_ = g_(*args)
+                except Exception:       # noqa
+                    break
+                a_ = a_ if isinstance(a_, (list, tuple)) else [a_]; b_ = b_ if isinstance(b_, (list, tuple)) else [b_]
+                va = np.concatenate([np.array(x).flatten() for x in a_]); vb = np.concatenate([np.array(x).flatten() for x in b_])
+                same = va.shape == vb.shape and np.array_equal(np.isnan(va), np.isnan(vb)) and \
+                    np.all(np.abs(np.nan_to_num(va) - np.nan_to_num(vb)) <= 1e-12 * np.maximum(1.0, np.abs(np.nan_to_num(vb))))
+                run.count("entry_point_vs_library_evaluations")
+                if not same:
+                    run.violation(f"{s}/{f.name()}/entry_point_differs_from_library", f"the function shipped by `python -m {modname}` computes different values "
+                                  f"than {modname}'s own derivation of '{f.name()}'", {"kind": "main", "set": s, "function": f.name(),
+                                                                                      "inputs": [np.array(x).flatten().tolist() for x in args],
+                                                                                      "shipped": va.tolist(), "library": vb.tolist()})
+                    break
         for n in defined:
             if n not in called:
                 with quiet():
